@@ -131,6 +131,10 @@ private:
 
   std::mutex callback_lock;
   std::vector<void*> callback_keys;
+  // Counts how often this sandbox object has been destroyed. Callback owners
+  // remember the incarnation they were registered with, so that an owner that
+  // outlives its sandbox cannot affect a later incarnation.
+  size_t sandbox_incarnation = 0;
 
   void* transition_state = nullptr;
 
@@ -301,12 +305,20 @@ private:
    * calling this function henceforth.
    */
   template<typename T_Ret, typename... T_Args>
-  inline void unregister_callback(void* key)
+  inline void unregister_callback(void* key, size_t incarnation)
   {
     // Silently swallowing the failure is better here as RAII types may try to
     // cleanup callbacks after sandbox destruction
     if (sandbox_created.load() != Sandbox_Status::CREATED) {
       return;
+    }
+
+    // Same if the sandbox has been destroyed and created again since
+    {
+      std::lock_guard<std::mutex> lock(callback_lock);
+      if (incarnation != sandbox_incarnation) {
+        return;
+      }
     }
 
     this->template impl_unregister_callback<
@@ -451,6 +463,7 @@ public:
     {
       std::lock_guard<std::mutex> lock(callback_lock);
       callback_keys.clear();
+      sandbox_incarnation++;
     }
 
     sandbox_created.store(Sandbox_Status::NOT_CREATED);
@@ -931,8 +944,10 @@ public:
       // Make sure that the user hasn't previously registered this function...
       // If they have, we would returning 2 owning types (sandbox_callback) to
       // the same callback which would be bad
+      size_t incarnation = 0;
       {
         std::lock_guard<std::mutex> lock(callback_lock);
+        incarnation = sandbox_incarnation;
         bool exists =
           std::find(callback_keys.begin(), callback_keys.end(), unique_key) !=
           callback_keys.end();
@@ -963,7 +978,8 @@ public:
         tainted_func_ptr,
         callback_interceptor,
         callback_trampoline,
-        unique_key);
+        unique_key,
+        incarnation);
       return ret;
     }
   }
